@@ -207,6 +207,7 @@ func init() {
 		},
 	}
 	registerStringStubs()
+	registerBStrStubs()
 	registerNetStubs()
 	registerTimeStubs()
 }
